@@ -66,7 +66,7 @@ def hung_line(rng, thr, W, cextra=0, textra=0, dup=False):
 
 def generate(rng, tier):
     cases = []
-    nbase = {"quick": 120, "thorough": 2500, "search": 1000}.get(tier, 120)
+    nbase = {"quick": 300, "thorough": 2500, "search": 1000}.get(tier, 120)
     for i in range(nbase):
         nq, nt = rng.randint(1, 6), rng.randint(1, 6)
         s = stream(rng, nq, nt, rng.choice([1, 2, 5]), lo=rng.choice([0, 0, 100]))
@@ -101,7 +101,7 @@ def generate(rng, tier):
             cases.append(["vote best %s %d %s" % (f32tok(maxd), mv, toks(p_))])
             cases.append(["vote topn %d %s %d %s" % (rng.choice([1, 2, 10]), f32tok(maxd), mv, toks(p_))])
     # Hungarian
-    nh = {"quick": 400, "thorough": 6000, "search": 3000}.get(tier, 400)
+    nh = {"quick": 1000, "thorough": 6000, "search": 3000}.get(tier, 400)
     for i in range(nh):
         c, t = rng.randint(1, 5), rng.randint(1, 5)
         thr = G * rng.choice([19, 20, 32, 64, rng.randint(1, 70)])
